@@ -41,7 +41,9 @@ def key_export():
         SUBB = [z3.Const('SUBKEY0_WITH_ITS_SIGNATURES', B), z3.Const('SUBKEY1_WITH_ITS_SIGNATURES', B)]
         r.set('key', '_children', E.VDict([(E.VStr(s='id0'), subs[0]), (E.VStr(s='id1'), subs[1])]))
         # recursive export of a subkey: its own contract (same function)
-        r.hook(KEY, '__bytearray__', scn.method_hook(lambda ex, st, o, a: [(st, ex.new_buf(st, SUBB[int(o.ref[-1])]))]))
+        # ... which yields other octets once the subkey's own signatures have changed (epoch 1: second export of the same key object)
+        SUBB1 = [z3.Const('SUBKEY0_WITH_ITS_SIGNATURES_AFTER_IT_CHANGED', B), z3.Const('SUBKEY1_WITH_ITS_SIGNATURES_AFTER_IT_CHANGED', B)]
+        r.hook(KEY, '__bytearray__', scn.method_hook(lambda ex, st, o, a: [(st, ex.new_buf(st, (SUBB1 if st.ghost.get('epoch') else SUBB)[int(o.ref[-1])]))]))
         E0 = z3.Empty(B)
 
         def part(n, own):
@@ -53,6 +55,15 @@ def key_export():
                 r.oblige(s, 'safety(%s)/p%d' % (v.exc.split(':')[0], pi), z3.BoolVal(False), v.where)
                 continue
             r.oblige(s, 'rfc4880-11.1-order-and-exactly-the-exportable-signatures/p%d' % pi, ex.seq(v, s) == spec)
+            if pi == 0:
+                # no hidden state: exported again after a subkey got another signature (and one identity signature became non-exportable)
+                s.ghost['epoch'] = 1
+                spec1 = cat(KB, part('ks0', True), part('ks1', True), UB[0], part('u0s0', False), part('u0s1', False), UB[1], part('u1s0', False), SUBB1[0], SUBB1[1])
+                for qi, (s2, v2) in enumerate(ex.call_func(E.VFunc(r.node, None, cls=r.dcls, self_val=me, mod=r.mod), [], {}, s, {'mod': r.mod})):
+                    if isinstance(v2, E.Raise):
+                        r.oblige(s2, 'second-export:safety(%s)/p%d.%d' % (v2.exc.split(':')[0], pi, qi), z3.BoolVal(False), v2.where)
+                        continue
+                    r.oblige(s2, 'second-export-of-the-same-key-object-after-a-subkey-changed:the-present-components/p%d.%d' % (pi, qi), ex.seq(v2, s2) == spec1)
         return r.result()
     return Scenario(label, KEY + '.__bytearray__', gen, props=('C14', 'C07'))
 
@@ -70,8 +81,33 @@ def exportable_flag():
             r.set('spkt', 'subpackets', E.VObj('pgpy.packet.fields.SubPackets', 'subp'))
             flag = z3.Bool('exportable_subpacket_value')
             sp = E.VObj('pgpy.packet.subpackets.signature.ExportableCertification', 'ec')
-            r.hook('pgpy.packet.fields.SubPackets', '__contains__', scn.method_hook(lambda ex, st, o, a: [(st, E.VBool(present and a[0].s == 'ExportableCertification'))]))
-            r.hook('pgpy.packet.fields.SubPackets', '__getitem__', scn.method_hook(lambda ex, st, o, a: [(st, ex.new_list(st, [sp] if present else []))]))
+            # the signature may carry any other subpackets - e.g. a revocation key marked sensitive -, none of which decides exportability
+            has_rk, rk_sensitive = z3.Bool('has_a_revocation_key_subpacket'), z3.Bool('revocation_key_is_marked_sensitive')
+            RK = 'pgpy.packet.subpackets.signature.RevocationKey'
+            rk = E.VObj(RK, 'rk')
+            r.hook(RK, 'keyclass', scn.const(E.VSet([E.VInt(0x80, enum='pgpy.constants.RevocationKeyClass'), E.VInt(0x40, enum='pgpy.constants.RevocationKeyClass')],
+                                                    [z3.BoolVal(True), rk_sensitive])))
+
+            def contains(ex, st, o, a):
+                name = a[0].s if isinstance(a[0], E.VStr) else None
+                if name in ('ExportableCertification', 'h_ExportableCertification'):
+                    return [(st, E.VBool(present))]
+                if name in ('RevocationKey', 'h_RevocationKey'):
+                    return [(st, E.VBool(has_rk))]
+                return [(st, E.VBool(z3.Bool('has_subpacket_%s' % name)))]
+
+            def getitem(ex, st, o, a):
+                name = a[0].s if isinstance(a[0], E.VStr) else None
+                if name in ('ExportableCertification', 'h_ExportableCertification'):
+                    return [(st, ex.new_list(st, [sp] if present else []))]
+                if name in ('RevocationKey', 'h_RevocationKey'):
+                    s2 = st.clone()
+                    st.pc.append(has_rk)
+                    s2.pc.append(z3.Not(has_rk))
+                    return [(st, ex.new_list(st, [rk])), (s2, ex.new_list(s2, []))]
+                return [(st, ex.new_list(st, []))]
+            r.hook('pgpy.packet.fields.SubPackets', '__contains__', scn.method_hook(contains))
+            r.hook('pgpy.packet.fields.SubPackets', '__getitem__', scn.method_hook(getitem))
             r.hook('pgpy.packet.subpackets.signature.Boolean', '__bool__', scn.mconst(E.VBool(flag)))
             for pi, (s, v) in enumerate(r.call(me, [])):
                 paths += 1
